@@ -336,12 +336,17 @@ func TestCutsExhaustive(t *testing.T) {
 		if len(stream) > 160 || len(stream) < 2 {
 			continue
 		}
-		for a := 1; a < len(stream); a++ {
+		for a := 0; a <= len(stream); a++ {
+			// cut 0 and cut len give an empty first / last packet
 			if !e.Do(c02Case{Pkgs: ps, Cuts: []int{a}}) {
 				return
 			}
+			// two and three empty packets in a row at this position
+			if !e.Do(c02Case{Pkgs: ps, Cuts: []int{a, a}}) || !e.Do(c02Case{Pkgs: ps, Cuts: []int{a, a, a}}) {
+				return
+			}
 			if vh.Thorough() {
-				for b := a; b <= len(stream); b++ {
+				for b := a + 1; b <= len(stream); b++ {
 					if !e.Do(c02Case{Pkgs: ps, Cuts: []int{a, b}}) {
 						return
 					}
@@ -349,7 +354,7 @@ func TestCutsExhaustive(t *testing.T) {
 			}
 		}
 	}
-	e.Done("every single cut (thorough: every pair of cuts incl. empty bodies) of every drawn response <= 160 bytes")
+	e.Done("every single cut 0..len, the same position cut twice and three times (1-3 consecutive header-only packets anywhere incl. both ends), thorough: every pair of cuts, of every drawn response <= 160 bytes")
 }
 
 // all 2^(n-1) cut sets of short streams
